@@ -72,6 +72,11 @@ func Materialise(root string, t Tree, vars map[string]string) error {
 			if err := syscall.Mkfifo(p, 0644); err != nil {
 				return err
 			}
+		case "chardev":
+			// /dev/null's numbers; needs privileges
+			if err := syscall.Mknod(p, syscall.S_IFCHR|0644, 1<<8|3); err != nil {
+				return err
+			}
 		case "socket":
 			fd, err := syscall.Socket(syscall.AF_UNIX, syscall.SOCK_STREAM, 0)
 			if err != nil {
@@ -98,7 +103,7 @@ func Materialise(root string, t Tree, vars map[string]string) error {
 			}
 			continue
 		}
-		if n.Kind == "socket" {
+		if n.Kind == "socket" || n.Kind == "chardev" {
 			continue
 		}
 		if n.Sec != 0 || n.Nsec != 0 {
@@ -110,7 +115,7 @@ func Materialise(root string, t Tree, vars map[string]string) error {
 	}
 	for i := len(nodes) - 1; i >= 0; i-- {
 		n := nodes[i]
-		if n.Kind == "symlink" || n.Kind == "socket" {
+		if n.Kind == "symlink" || n.Kind == "socket" || n.Kind == "chardev" {
 			continue
 		}
 		if n.Mode != 0 || n.Kind == "file" || n.Kind == "dir" {
